@@ -67,6 +67,11 @@ var c18Tpls = map[string]string{
 	// struct values whose Go types have the same name (function-local "row", anonymous structs) and different
 	// layouts, one layout per call: a field is found by the value's own type
 	"rw.txt": "{{ rw.A }}#{{ rw.B }}|{{ an.X }}#{{ an.Y }}|{{ rw.A }}",
+	// rare malformed for tags (their errors are built on a separate path), parsed and executed
+	"e3.html": "a{% for 1 in l %}x{% endfor %}",
+	"e4.html": "line1\nline2 {% for k, 'v' in l %}x{% endfor %}",
+	// a list with spare capacity that the calls share, merged with per-call elements
+	"mg.txt": "{{ shl|merge([x, y])|join('|') }};{{ shl|merge([x])|merge([y])|length }};{{ shl|join }}",
 	"f.js":   "{% if x matches pat %}g('{{ y }}'){% endif %}{% for i in l %}{{ i }};{% endfor %}{{ x starts with pat ? 1 : 0 }}",
 }
 
@@ -96,6 +101,7 @@ var c18Ops = []c18Op{
 	{false, "tf.txt", false, ""}, {false, "tn.txt", false, ""},
 	{false, "sv.html", false, ""}, {false, "sv.js", false, ""}, {false, "q.html", false, ""},
 	{false, "rw.txt", false, "inv#7|5#y|inv"},
+	{false, "e3.html", false, ""}, {true, "e4.html", false, ""}, {false, "mg.txt", false, ""},
 }
 
 // c18Epoch makes template names and patterns unique per schedule / iteration ("a~17.html" is served like
@@ -124,6 +130,15 @@ var c18Suffix = regexp.MustCompile(`~[0-9]+|\{# [0-9]+ #\}`)
 // c18Shared: one html-safe value per epoch, shared by all calls of that schedule / iteration (a solo run has an epoch,
 // hence a value, of its own)
 var c18Shared sync.Map
+
+var c18SharedLists sync.Map
+
+// c18SharedListFor: one list (with spare capacity, as lists built by append have) per epoch, shared by its calls
+func c18SharedListFor(k int64) stick.Value {
+	v, _ := c18SharedLists.LoadOrStore(k, append(make([]stick.Value, 0, 16), "s1", "s2", "s3"))
+	c18SharedLists.Delete(k - 4096)
+	return v
+}
 
 func c18SharedFor(k int64) stick.Value {
 	v, _ := c18Shared.LoadOrStore(k, stick.NewSafeValue("<b>'s'</b>", "html"))
@@ -163,6 +178,7 @@ func c18Ctx(k int64, v int) map[string]stick.Value {
 	}
 	m := c18Ctx0(k, v)
 	m["rw"], m["an"] = rw, an
+	m["shl"] = c18SharedListFor(k)
 	return m
 }
 
@@ -548,7 +564,7 @@ func c18Levels(tier string) []core.Level {
 	// all pairs of the first 12 operations; the later ones (nested includes, nil-context calls, padded templates with
 	// use, failing / nested macros, templates that end early) with themselves, with the others of their kind and with
 	// two of the first (html with blocks, css with include)
-	group := map[int]int{13: 1, 14: 1, 15: 2, 16: 2, 17: 2, 18: 3, 19: 3, 20: 4, 21: 4, 22: 5, 23: 5, 24: 6, 25: 6, 26: 6, 27: 6}
+	group := map[int]int{13: 1, 14: 1, 15: 2, 16: 2, 17: 2, 18: 3, 19: 3, 20: 4, 21: 4, 22: 5, 23: 5, 24: 6, 25: 6, 26: 6, 27: 6, 28: 4, 29: 4, 30: 6}
 	paired := func(i, j int) bool {
 		if j < 12 || i == 0 || i == 3 || i == j {
 			return true
@@ -573,7 +589,7 @@ func c18Levels(tier string) []core.Level {
 		nTriples = len(triples)
 	}
 	lv := []core.Level{
-		{Name: "twig env: pairs of 28 operations (incl. the same one twice), all schedules with <= 1 preemption", Gen: func(emit func(core.Case)) { pairs(0, 1, emit) }},
+		{Name: "twig env: pairs of 31 operations (incl. the same one twice), all schedules with <= 1 preemption", Gen: func(emit func(core.Case)) { pairs(0, 1, emit) }},
 		{Name: fmt.Sprintf("twig env: all pairs (but those with the two filter operations), all schedules with <= %d preemptions", bound), Gen: func(emit func(core.Case)) { pairs(0, bound, emit) }},
 		{Name: "core env: all pairs, all schedules with <= 1 preemption", Gen: func(emit func(core.Case)) { pairs(1, 1, emit) }},
 		{Name: fmt.Sprintf("twig env: %d three-thread scenarios, all schedules with <= 2 preemptions", nTriples), Gen: func(emit func(core.Case)) {
